@@ -14,7 +14,7 @@ def run(ctx):
     T = ctx.thorough
     base = "SPECIFICATION Spec\nINVARIANT StepsSumToLength\nINVARIANT FiniteSteps\nINVARIANT BoundedWork\nPROPERTY Terminates\nCHECK_DEADLOCK FALSE\n"
     ctx.tlc("FiberStep", base + ("CONSTANTS L = 24\n K = 24\n Peaks = {0,1,2,3,4,6,8,12,24}\n Guarded = TRUE\n" if T else
-                                 "CONSTANTS L = 12\n K = 12\n Peaks = {0,1,2,3,4,6}\n Guarded = TRUE\n"), note="step controller: safety and termination")
+                                 "CONSTANTS L = 12\n K = 12\n Peaks = {0,1,2,3,4,6}\n Guarded = TRUE\n"), note="step controller: safety and termination", actions=["First", "Loop", "Last"])
     neg = ctx.tlc("FiberStep", base + "CONSTANTS L = 12\n K = 12\n Peaks = {0,1,2,3}\n Guarded = FALSE\n", expect_ok=False, count=False,
                   note="negative control: unguarded controller (zero peak)")
     if not neg.violated:
